@@ -1,10 +1,75 @@
-(* Properties_C06.v — obligations of property C06.  Contains only theorem statements closed by
-   `exact <lemma>` and Print Assumptions. *)
-Require Import ObsRun.
+(* Properties_C06.v — obligations of property C06 (text acceptance thresholds and weighted
+   per-character error level).  The spec function cell_after (Observers.v) says what a reception
+   of `byte` with block-B error eb and carrying-block error e does to a cell holding (char, level):
+     rejected unless eb <= info threshold and e <= data threshold of THAT text;
+     level l = 0 if eb = e = 0, else 2*eb + 3*e - 1;
+     progressive: rejected if l is worse than the cell's level;
+     0x0D and codes >= 0x7F only with l = 0; control codes never;
+     identical character with equal or worse level: ignored;  otherwise the cell becomes (conv byte, l).
+   write2 applies cell_after to two consecutive cells with the two bytes of a block. *)
+Require Import ObsRun Lemmas_TextProps.
 Local Open Scope Z_scope.
 
-(* non-vacuity: the observer of C06 is evaluated (and holds) along a run of the model that
-   touches every group kind *)
+(* type 0 (A and B): block D, PS thresholds / progressive flag, cells 2s and 2s+1 *)
+Theorem C06_ps : forall conv lut g s, Inv conv s -> wf_group g -> b_group (gb g) = 0 ->
+  cells (ps (fst (process conv lut g s)))
+  = write2 conv (corr s PS INFO) (corr s PS DATA) (prog s PS) (eb g) (ed g)
+           (Z.to_nat (2 * (gb g mod 4))) (gd g) (cells (ps s)).
+Proof. intros conv lut g s I W G. exact (proj1 (ps_step conv lut g s I W G)). Qed.
+Print Assumptions C06_ps.
+
+(* 10A: blocks C (error ec) and D (error ed), PTYN thresholds, cells 4s..4s+3 *)
+Theorem C06_ptyn : forall conv lut g s, Inv conv s -> wf_group g -> b_group (gb g) = 10 -> b_ver (gb g) = 0 ->
+  let w := write2 conv (corr s PTYN INFO) (corr s PTYN DATA) (prog s PTYN) (eb g) in
+  cells (ptyn (fst (process conv lut g s)))
+  = w (ed g) (Z.to_nat (4 * (gb g mod 2) + 2)) (gd g) (w (ec g) (Z.to_nat (4 * (gb g mod 2))) (gc g) (cells (ptyn s))).
+Proof. intros conv lut g s I W G V. exact (proj1 (ptyn_step conv lut g s I W G V)). Qed.
+Print Assumptions C06_ptyn.
+
+(* type 2: RT thresholds; block C with its own error code ec, block D with ed (see C08 for `base`
+   and for the ignored case) *)
+Theorem C06_rt : forall conv lut g s, Inv conv s -> wf_group g -> b_group (gb g) = 2 ->
+  let f := b_rtflag (gb g) in let last := last_rt s in
+  let switch := (eb g =? 0) && negb (f =? last) in
+  let ignored := negb (eb g =? 0) && negb (f =? last) && negb (last =? -1) in
+  let base := if switch && negb (last =? -1) && string_available (rt_of f s)
+              then cells (string_clear (rt_of f s)) else cells (rt_of f s) in
+  let w := write2 conv (corr s RT INFO) (corr s RT DATA) (prog s RT) (eb g) in
+  cells (rt_of f (fst (process conv lut g s))) =
+  if ignored then cells (rt_of f s)
+  else if b_ver (gb g) =? 0
+       then w (ed g) (Z.to_nat (4 * (gb g mod 16) + 2)) (gd g) (w (ec g) (Z.to_nat (4 * (gb g mod 16))) (gc g) base)
+       else w (ed g) (Z.to_nat (2 * (gb g mod 16))) (gd g) base.
+Proof. intros conv lut g s I W G. exact (proj2 (proj2 (proj2 (proj2 (rt_step conv lut g s I W G))))). Qed.
+Print Assumptions C06_rt.
+
+(* the hypothesis Inv holds in every reachable state *)
+Theorem C06_inv_reachable : forall conv lut h s, reach conv lut h s -> Inv conv s.
+Proof. exact reach_inv. Qed.
+
+(* the weighted level: 0..9 for accepted errors, 0 exactly when both blocks are error-free, strictly
+   monotone in each argument, and for equal magnitudes a data error weighs more than an info error
+   ("data errors outweigh info errors": weight 3 against 2) *)
+Theorem C06_weights :
+  (forall eb e, 0 <= eb <= 2 -> 0 <= e <= 2 -> 0 <= lvl eb e <= 9 /\ (lvl eb e = 0 <-> eb = 0 /\ e = 0))
+  /\ (forall x, 1 <= x <= 2 -> lvl x 0 < lvl 0 x)
+  /\ (forall eb e e', 0 <= eb <= 2 -> 0 <= e < e' -> e' <= 2 -> lvl eb e < lvl eb e')
+  /\ (forall eb eb' e, 0 <= e <= 2 -> 0 <= eb < eb' -> eb' <= 2 -> lvl eb e < lvl eb' e).
+Proof. exact (lvl_facts (fun x => x)). Qed.
+Print Assumptions C06_weights.
+
+(* the model computes the level with the 8-bit arithmetic of the sources; no wrap for accepted errors *)
+Theorem C06_level_formula : forall eb e, 0 <= eb <= 2 -> 0 <= e <= 2 -> calc_error eb e = lvl eb e.
+Proof. exact calc_error_lvl. Qed.
+
 Example C06_scenario : check_run_u (observer_u 6) scenario = true.
 Proof. vm_compute. reflexivity. Qed.
-Print Assumptions C06_scenario.
+Example C06_cell_after_examples :
+  cell_after conv_u 2 2 false (65, 0) 66 1 0 = (66, 1)            (* different character, info error *)
+  /\ cell_after conv_u 2 2 false (65, 0) 65 0 1 = (65, 0)         (* same data, worse level: ignored *)
+  /\ cell_after conv_u 2 2 false (65, 4) 65 0 1 = (65, 2)         (* same data, better level *)
+  /\ cell_after conv_u 2 2 true (65, 1) 66 0 1 = (65, 1)          (* progressive: worse level rejected *)
+  /\ cell_after conv_u 2 2 false (65, 5) 128 0 1 = (65, 5)        (* special character with errors *)
+  /\ cell_after conv_u 1 2 false (65, 5) 66 2 0 = (65, 5)         (* above the info threshold *)
+  /\ cell_after conv_u 2 2 false (65, 5) 13 0 0 = (0, 0).         (* end of text *)
+Proof. vm_compute. repeat split. Qed.
